@@ -341,6 +341,15 @@ def build(spec, explicit=False, allow_forbidden=False):
             chunk_size = sum(_obj_bytes(i) for (_p, _h, i) in data_objs)
         if chunk_size == 0 and chunks != 0:
             raise SpecError('chunks without data')
+        # 'less data than expected': the lead-in states a raw data size whose final chunk holds only
+        # `short_last` values of every channel (all channels sized, with the same per-chunk count)
+        short = seg.get('short_last')
+        if short is not None:
+            cnts = set(i['count'] for (_p, _h, i) in data_objs)
+            if layout == 'daqmx' or 'str' in kinds or len(cnts) != 1 or chunks < 1 or not (0 < short < list(cnts)[0]):
+                raise SpecError('short final chunk needs sized channels of one common length')
+            if seg.get('next_offset', 'explicit') == 'unknown':
+                raise SpecError('short final chunk with unknown offset')
         # ---- metadata bytes
         if has_meta:
             if explicit:
@@ -424,6 +433,8 @@ def build(spec, explicit=False, allow_forbidden=False):
                     ch.seg_counts[k] = ch.seg_counts.get(k, 0) + n
             elif eff_layout == 'interleaved':
                 n = data_objs[0][2]['count'] if data_objs else 0
+                if short is not None and c == chunks - 1:
+                    n = short
                 cols = []
                 for (path, _h, idx) in data_objs:
                     b = sdata[path][c]
@@ -447,7 +458,11 @@ def build(spec, explicit=False, allow_forbidden=False):
                 for (path, _h, idx) in data_objs:
                     v = sdata[path][c]
                     a = data_pos + len(raw)
-                    if idx['type'] == 'str':
+                    if short is not None and c == chunks - 1:
+                        if len(v) != short * fmt.size_of(idx['type']):
+                            raise SpecError('short chunk data size')
+                        b = fmt.to_endian(idx['type'], v, e)
+                    elif idx['type'] == 'str':
                         if len(v) != idx['count']:
                             raise SpecError('string count')
                         b = _string_chunk(v, e)
@@ -462,7 +477,7 @@ def build(spec, explicit=False, allow_forbidden=False):
                 chunk_end = data_pos + len(raw)
                 for (path, idx, v, a, b_) in pending:
                     ch = w.chans[path]
-                    n = idx['count']
+                    n = idx['count'] if not (short is not None and c == chunks - 1) else short
                     if ch.type == 'str':
                         ch.values.extend(v)
                     else:
@@ -471,7 +486,10 @@ def build(spec, explicit=False, allow_forbidden=False):
                         ch.prov.append((k, c, ch.count, n, [(a, b_)], (chunk_start, chunk_end)))
                     ch.count += n
                     ch.seg_counts[k] = ch.seg_counts.get(k, 0) + n
-            if len(raw) != (c + 1) * chunk_size:
+            if short is not None and c == chunks - 1:
+                if len(raw) != c * chunk_size + chunk_size * short // list(cnts)[0]:
+                    raise SpecError('short chunk size mismatch')
+            elif len(raw) != (c + 1) * chunk_size:
                 raise SpecError('chunk size mismatch')
         unknown = seg.get('next_offset', 'explicit') == 'unknown'
         if unknown and k != len(segs) - 1:
